@@ -235,7 +235,7 @@ pub enum Ev {
     PeEnd { pe: u16 },
     Rand { v: u64 },
     /// `inactive`: bit 0 = the parent was reported as currently inactive, bit 1 + k = the k-th child (in program order) was
-    Query { parent_ok: bool, children_ok: bool, path_ok: bool, name_ok: bool, #[serde(default)] inactive: u32 },
+    Query { parent_ok: bool, children_ok: bool, path_ok: bool, name_ok: bool, #[serde(default)] inactive: u32, #[serde(default)] roundtrip_ok: bool },
     PanicNow,
     ShutdownReq { restart: i64 },
     /// async task records (engine asy)
@@ -434,6 +434,7 @@ impl ScriptMod {
                     r.path().as_str() == path && glob.get(&ObjectPath::from(path.as_str())).map_or(false, |g| g.id() == r.id())
                 };
                 let mut inactive = 0u32;
+                let mut roundtrip_ok = true;
                 let parent_ok = match (spec.parent, cur.parent()) {
                     (-1, Err(MRE::NoEntry(_))) => true,
                     (p, Ok(pr)) if p >= 0 => same_node(&pr, p as usize),
@@ -450,8 +451,23 @@ impl ScriptMod {
                     if is_child {
                         match cur.child(&c.name) {
                             // the handle must be the node the tree knows under this path, not merely one with the same path
-                            Ok(ch) => children_ok &= same_node(&ch, ci),
-                            Err(MRE::CurrentlyInactive(_)) => inactive |= 1 << (1 + k.min(30)),
+                            Ok(ch) => {
+                                children_ok &= same_node(&ch, ci);
+                                // and back: the child's parent is this module (the edge exists in both directions)
+                                let back = std::panic::catch_unwind(std::panic::AssertUnwindSafe(|| ch.parent()));
+                                match back {
+                                    Ok(Ok(p)) => roundtrip_ok &= p.id() == cur.id(),
+                                    // (the way back fails with "inactive" if this module itself is down: des still calls start-up
+                                    // stages and tear-down on such a module - the oracle knows whether it is)
+                                    Ok(Err(MRE::CurrentlyInactive(_))) => inactive |= 1 << 31,
+                                    Ok(Err(_)) => roundtrip_ok = false,
+                                    Err(_) => {
+                                        crate::clear_panic();
+                                        roundtrip_ok = false;
+                                    }
+                                }
+                            }
+                            Err(MRE::CurrentlyInactive(_)) => inactive |= 1 << (1 + k.min(29)),
                             Err(_) => children_ok = false,
                         }
                         k += 1;
@@ -463,7 +479,7 @@ impl ScriptMod {
                 // the global view of the simulation must know this module under its path
                 let by_path = glob.get(&ObjectPath::from(expected_path.as_str()));
                 let global_ok = by_path.map_or(false, |r| r.id() == cur.id());
-                rec(self.idx, Ev::Query { parent_ok, children_ok, path_ok: cur.path().as_str() == expected_path && global_ok, name_ok: cur.name() == spec.name, inactive });
+                rec(self.idx, Ev::Query { parent_ok, children_ok, path_ok: cur.path().as_str() == expected_path && global_ok, name_ok: cur.name() == spec.name, inactive, roundtrip_ok });
             }
             Act::SelfMsg { delay_ns } => {
                 let uid = uid_of(self.idx, site, ai, self.inc);
